@@ -118,7 +118,8 @@ def enumerate_cases(tier, seed):
                     for pos in ("mid1", "mid4"):
                         cases.append({"program": program, "input": inp, "prior": prior, "rng": seed, "inplace": True,
                                       "fault": {"stage": "write_gro", "pos": pos, "exc": "RuntimeError"}})
-                for odd in ("dotdot", "symlink", "relative") + (("filelink",) if prior == "present" and program != "gen_seq" else ()):
+                for odd in ("dotdot", "symlink", "relative") + (("filelink",) if prior == "present" and program != "gen_seq" else ()) \
+                        + (("missing_dir",) if prior == "absent" and program != "gen_seq" else ()):
                     cases.append({"program": program, "input": inp, "fault": None, "prior": prior, "rng": seed,
                                   "odd_path": odd})
                 # fault-free runs whose output name has another ending, or none
@@ -354,6 +355,9 @@ def _check(spec, ctx, other_tmp):
         (outdir / "sub").mkdir()
         if spec["odd_path"] == "dotdot":
             target_arg = outdir / "sub" / ".." / target.name
+        elif spec["odd_path"] == "missing_dir":
+            # the directory of the output path does not exist: the run cannot succeed, and must say so
+            target_arg = outdir / "nodir" / target.name
         elif spec["odd_path"] == "filelink":
             # the previous output is itself a symbolic link to a file kept elsewhere: the link is what gets
             # the backup name, the file it points to is left alone
@@ -425,6 +429,17 @@ def _check(spec, ctx, other_tmp):
         undo()
         os.chdir(cwd0)
     after = snapshot(outdir)
+    if spec.get("odd_path") == "missing_dir":
+        if error is None and not (outdir / "nodir" / target.name).exists():
+            raise Violation(f"{program}:success_without_output", "the run returned normally although its output could not "
+                                                                 "be put in place (the directory does not exist)")
+        if error is not None and not isinstance(error, OSError):
+            raise crash(f"{program}:unexpected_failure", error)
+        if error is not None and after != before:
+            raise Violation(f"{program}:output_changed_on_failure", f"directory changed: {sorted(set(after.items()) ^ set(before.items()))[:3]}")
+        ctx.label("output_directory_missing")
+        ctx.nontrivial = True
+        return
     if spec.get("odd_path") == "filelink":
         if snapshot(ctx.dir / "shared") != {"ref.dat": (len(sentinel), hashlib.sha256(sentinel).hexdigest())}:
             raise Violation(f"{program}:file_behind_link_changed", f"the directory of the file the old output pointed to now "
